@@ -21,7 +21,7 @@
        run_loop (under F u) = run_loop (under F (final state of run_upper u))    (run_loop_frame)
    as an equation between outcomes (successes, errors and fuel alike). *)
 From Coq Require Import Lia ZifyBool ZifyN ZifyNat.
-From Clvm Require Import Model.Machine Proofs.MachineBasics Proofs.MachineTotal.
+From Clvm Require Import Model.Machine Proofs.MachineBasics Proofs.MachineStackCounts.
 Open Scope N_scope.
 
 Record frame := { fr_vals : list sexp; fr_envs : list sexp; fr_ops : list operation }.
